@@ -87,7 +87,8 @@ def activate (s : Session) (sp : Bool) (block : Bytes) (now : Nat) : Session × 
     let rt := s.rt
     let rt := { rt with sessionResumed := sp, keepaliveMs := ka,
                         sendQuota := sq - s.data.outbound.inflightPublishes,
-                        maxSendQuota := msq, maxQos := mq, maximumPacketSize := mps }
+                        maxSendQuota := msq, maxQos := mq, maximumPacketSize := mps,
+                        deficit := decide (sq < s.data.outbound.inflightPublishes) }
     let s := { s with rt := rt, clientId := cid.getD s.clientId,
                       data := { s.data with sessionPresent := true } }
     let rt := (s.rt.noteOutboundActivity now)
